@@ -40,7 +40,8 @@ def variants(work, k):
 def run(ctx):
     ctx.rule = ("each command (editor with 2..5 overlapping scene-cut / active-area ranges, generate from JSON / CM XML incl. "
                 "several target displays, export all/scenes/level5, info -s, extract-rpu, convert, demux, mux, inject-rpu, remove "
-                "on the repository's sample streams and on generated RPU lists) is executed in 8 (quick) / 16 (thorough) fresh "
+                "on the repository's sample streams and on generated RPU lists; convert/demux/remove/extract-rpu --start-code annex-b on a "
+                "stream whose first access unit exceeds the read chunk, piped in with a different write size / pacing per process) is executed in 8 (quick) / 16 (thorough) fresh "
                 "processes with varied HOME, LANG/LC_ALL, working directory, RUST_BACKTRACE, font configuration and time zone, and "
                 "(every third process) output paths that already hold longer files; generated CM XML with >= 3 custom target displays sharing peak/min/primaries; "
                 "output file hashes, exit status (and stdout where it is the product) must coincide; the Lean theorem states that "
@@ -125,6 +126,45 @@ def run(ctx):
         jobs.append(("remove", lambda o: (["remove", hv, "-o", os.path.join(o, "b.hevc")], ["b.hevc"]), False))
         jobs.append(("inject", lambda o: (["inject-rpu", "-i", bl, "--rpu-in", rpu, "-o", os.path.join(o, "i.hevc")], ["i.hevc"]), False))
         jobs.append(("plot", lambda o: (["plot", rpu, "-o", os.path.join(o, "p.png")], []), False))
+        # piped input: the same bytes delivered in different write sizes and paces must give the same files. The
+        # stream's first access unit is larger than the 100 kB read chunk and made of many NALs, so chunk boundaries
+        # (which follow the pipe's delivery) fall inside it
+        from . import hevcgen as H, hevcrun as R
+        nals = H.split_nals(open(hv, "rb").read())
+        first_vcl = next(i for i, (_, nl) in enumerate(nals) if H.nal_type(nl) < 32)
+        sr = rng.fork("bigau")
+        extra = []
+        for _ in range(40):
+            payload = bytes(range(16)) + bytes(1 + sr.below(255) for _ in range(5200 + sr.below(900)))
+            extra.append((4, H.sei_nal([(5, payload)], H.SEI_PREFIX, 0)))
+        big = b"".join((b"\x00\x00\x00\x01" if sc == 4 else b"\x00\x00\x01") + nl for sc, nl in nals[:first_vcl] + extra + nals[first_vcl:])
+        stdin_jobs = {}
+        for nm, tail, outs in (("convert-stdin-annexb", lambda o: ["convert", "-", "-o", os.path.join(o, "c.hevc")], ["c.hevc"]),
+                               ("demux-stdin-annexb", lambda o: ["demux", "-", "--bl-out", os.path.join(o, "bl.hevc"), "--el-out", os.path.join(o, "el.hevc")], ["bl.hevc", "el.hevc"]),
+                               ("remove-stdin-annexb", lambda o: ["remove", "-", "-o", os.path.join(o, "b.hevc")], ["b.hevc"]),
+                               ("extract-rpu-stdin", lambda o: ["extract-rpu", "-", "-o", os.path.join(o, "r.bin")], ["r.bin"])):
+            jobs.append((nm, (lambda o, tail=tail, outs=outs: (["--start-code", "annex-b"] + tail(o), outs)), False))
+            stdin_jobs[nm] = True
+        deliveries = [[(len(big), 0)]]
+        fr = rng.fork("frag")
+        for r_ in range(1, reps):
+            prof = ["small", "chunkish", "large", "tiny-head", "paced"][(r_ - 1) % 5]
+            pieces, left = [], len(big)
+            while left > 0:
+                if prof == "small":
+                    n_ = 1 + fr.below(4096)
+                elif prof == "chunkish":
+                    n_ = 100000 - 7 + fr.below(15) if fr.chance(1, 2) else 1 + fr.below(200000)
+                elif prof == "large":
+                    n_ = 1 + fr.below(70000)
+                elif prof == "tiny-head":
+                    n_ = 1 + fr.below(9) if len(pieces) < 300 else 50000
+                else:
+                    n_ = 65536
+                n_ = min(n_, left)
+                pieces.append((n_, (1 + fr.below(4)) if (prof == "paced" or fr.chance(1, 50)) else 0))
+                left -= n_
+            deliveries.append(pieces)
         envs = variants(work, reps)
 
         def one(job_rep):
@@ -138,7 +178,11 @@ def run(ctx):
                 for n in outs:
                     with open(os.path.join(o, n), "wb") as fh:
                         fh.write((b"\x00\x00\x00\x01" + b"\x19" + bytes(range(256))) * 12000)
-            rc, so, se = clirun.run(args, cwd=cwd, env=env, timeout=300)
+            if name in stdin_jobs:
+                res_ = R.run_tool(args, env=env, stdin_data=big, pieces=deliveries[r], cwd=o, timeout=300)
+                rc, so, se = res_.rc, res_.out, res_.err
+            else:
+                rc, so, se = clirun.run(args, cwd=cwd, env=env, timeout=300)
             dg = digest_dir(o, outs)
             shutil.rmtree(o, ignore_errors=True)
             so_h = hashlib.sha256(so.replace(o.encode(), b"<out>")).hexdigest() if stdout_prod else None
